@@ -42,8 +42,12 @@ def graph_features(g):
 
 
 def run_case(probe, g, ops, props, runner=None):
-    """returns (findings relevant to props, sim)"""
-    sim = simrun.Sim(probe, g)
+    """returns (findings relevant to props, sim). probe: a Probe (SIM engine) or ('e2e', scratch root) for the real binary"""
+    if isinstance(probe, tuple):
+        from . import e2e
+        sim = e2e.RealSim(probe[1], g)
+    else:
+        sim = simrun.Sim(probe, g)
     try:
         if runner:
             runner(sim, ops)
@@ -54,7 +58,9 @@ def run_case(probe, g, ops, props, runner=None):
     return [f for f in sim.findings if f['prop'] in props], sim
 
 
-def worker(prop, props, widx, n_examples, max_edges, max_ops, features, nontrivial_fn, with_failures, runner_name):
+def worker(prop, props, widx, n_examples, max_edges, max_ops, features, nontrivial_fn, with_failures, runner_name, backend='sim'):
+    if backend == 'e2e':
+        return e2e_worker(prop, props, widx, n_examples, max_edges, max_ops, features, nontrivial_fn, with_failures, runner_name)
     res = common.Result()
     known = common.Known()
     state = {'fail': None}
@@ -92,10 +98,60 @@ def worker(prop, props, widx, n_examples, max_edges, max_ops, features, nontrivi
     return res
 
 
+def e2e_worker(prop, props, widx, n_examples, max_edges, max_ops, features, nontrivial_fn, with_failures, runner_name):
+    """the same campaign through the real binary in a real directory (fewer, slower cases)"""
+    import shutil
+    res = common.Result()
+    known = common.Known()
+    state = {'fail': None}
+    budget = common.ShrinkBudget()
+    runner = RUNNERS.get(runner_name)
+    root = common.scratch_root()
+    try:
+        @hseed(common.sub_seed(prop, 'e2e', widx))
+        @settings(max_examples=n_examples, deadline=None, database=None, suppress_health_check=list(HealthCheck),
+                  phases=[Phase.generate, Phase.shrink], verbosity=Verbosity.quiet, report_multiple_bugs=False)
+        @given(graphs.graphs(max_edges=max_edges, features=features), graphs.histories(max_ops=max_ops, with_failures=with_failures))
+        def test(g, ops):
+            dg = common.digest(dict(g=g, ops=ops))
+            if budget.skip(dg):
+                return
+            findings, sim = run_case(('e2e', root), g, ops, props, runner)
+            feats = graph_features(g)
+            nt = nontrivial_fn(g, ops, sim, feats)
+            res.case(dict(g=g, ops=ops, e2e=True), nt, ['e2e:' + x for x in sim.labels],
+                     sample=dict(engine='e2e', manifest=graphs.real_manifest(g, 'vtool')[-700:], ops=ops[:5]) if nt and len(res.samples) < 2 else None)
+            res.extra['e2e_cases'] += 1
+            res.extra['e2e_invocations'] += sim.stats['invocations']
+            for f in findings:
+                if f['known'] and all(known.listed(f['prop'], s_) for s_ in f['known'].split('+')):
+                    for s_ in f['known'].split('+'):
+                        res.known_hits[s_] += 1
+                    continue
+                state['fail'] = (dict(g=g, ops=ops, runner=runner_name, backend='e2e'),
+                                 "[real binary] %s: %s %s" % (f['prop'], f['kind'], json.dumps(f['detail'], default=repr)[:1500]))
+                budget.failed(dg)
+                raise Falsified(f['kind'])
+        common.run_hypothesis(test, state, res)
+    finally:
+        shutil.rmtree(root, ignore_errors=True)
+    return res
+
+
 def replay_case(case, props, times=3):
     """plain re-execution, bypassing Hypothesis; returns list of findings lists"""
     out = []
     runner = RUNNERS.get(case.get('runner'))
+    if case.get('backend') == 'e2e':
+        import shutil
+        root = common.scratch_root()
+        try:
+            for _ in range(times):
+                findings, sim = run_case(('e2e', root), copy.deepcopy(case['g']), copy.deepcopy(case['ops']), props, runner)
+                out.append(findings)
+        finally:
+            shutil.rmtree(root, ignore_errors=True)
+        return out
     with Probe("san") as probe:
         for _ in range(times):
             findings, sim = run_case(probe, copy.deepcopy(case['g']), copy.deepcopy(case['ops']), props, runner)
@@ -104,11 +160,11 @@ def replay_case(case, props, times=3):
 
 
 def campaign(ck, props, n_examples, max_edges=8, max_ops=8, features=None, nontrivial_fn=None, with_failures=True,
-             runner_name=None, workers=None):
+             runner_name=None, workers=None, backend='sim'):
     workers = workers or common.NCPU
     per = max(1, n_examples // workers)
     nontrivial_fn = nontrivial_fn or (lambda g, ops, sim, feats: sim.stats['builds'] > 0)
-    res = common.run_workers(worker, [(ck.prop, props, w, per, max_edges, max_ops, features, nontrivial_fn, with_failures, runner_name)
+    res = common.run_workers(worker, [(ck.prop, props, w, per, max_edges, max_ops, features, nontrivial_fn, with_failures, runner_name, backend)
                                       for w in range(workers)])
     ck.merge(res)
     known = ck.known
